@@ -2,7 +2,7 @@ CONSTANTS
   DEV_QuoteFlagsBeforeEmit = TRUE
   DEV_GluedAfterAccepted = TRUE
   DEV_RestrictedNeedsValidBody = FALSE
-  DEV_DelCredEmptyListIsNil = TRUE
+  DEV_DelCredEmptyListIsNil = FALSE
 INIT Init
 NEXT Next
 CHECK_DEADLOCK FALSE
